@@ -63,16 +63,17 @@ type UseFn = Box<dyn Fn() -> Vec<(u32, usize)>>;
 
 macro_rules! own_impl {
     ($fname:ident, $path:path, $directed:tt) => {
-        pub fn $fname(cases: &str, max_viol: usize) -> Value {
+        pub mod $fname {
+            use super::*;
             use $path as g;
             type N = g::Node<u32, Token, i64>;
-            struct W {
+            pub struct W {
                 n: usize,
                 handles: Vec<Vec<N>>,
                 cont: Option<g::Graph<u32, Token, i64>>,
                 results: Vec<UseFn>,
             }
-            fn take_result(w: &W, r: &Value) -> Result<UseFn, String> {
+            pub fn take_result(w: &W, r: &Value) -> Result<UseFn, String> {
                 let root = r["root"].as_u64().unwrap() as usize;
                 let h = w.handles[root - 1].first().ok_or("no handle on root")?.clone();
                 let kind = r["kind"].as_str().unwrap();
@@ -100,7 +101,7 @@ macro_rules! own_impl {
                 drop(h);
                 Ok(f)
             }
-            fn build(case: &Value) -> Result<W, String> {
+            pub fn build(case: &Value) -> Result<W, String> {
                 let st = AState { out: lists(&case["out"]), inn: lists(&case["inn"]) };
                 let n = st.n();
                 reset_tokens();
@@ -125,7 +126,7 @@ macro_rules! own_impl {
                 }
                 Ok(w)
             }
-            fn apply(w: &mut W, a: &Value) -> Result<(), String> {
+            pub fn apply(w: &mut W, a: &Value) -> Result<(), String> {
                 let name = a[0].as_str().unwrap();
                 let arg = |i: usize| a[i].as_u64().unwrap() as usize;
                 match name {
@@ -154,7 +155,7 @@ macro_rules! own_impl {
                 Ok(())
             }
             /// live results must be usable: every node they mention can be dereferenced
-            fn use_results(w: &W) -> Result<usize, String> {
+            pub fn use_results(w: &W) -> Result<usize, String> {
                 let mut k = 0;
                 for f in &w.results {
                     for (key, id) in f() {
@@ -164,6 +165,7 @@ macro_rules! own_impl {
                 }
                 Ok(k)
             }
+            pub fn replay(cases: &str, max_viol: usize) -> Value {
             fn within(obs: &[usize], case: &Value) -> bool {
                 let mn = set_of(&case["released_min"]);
                 let mx = set_of(&case["released_max"]);
@@ -237,6 +239,72 @@ macro_rules! own_impl {
             json!({"states": n_states, "actions": n_acts, "agree": agree, "n_mismatch": n_mismatch, "mismatches": mismatches, "samples": samples,
                    "distinct_nontrivial": nontrivial, "result_node_dereferences": derefs,
                    "lock_points_seen": LOCK_POINTS.load(std::sync::atomic::Ordering::Relaxed)})
+            }
+
+            /// seeded random histories over `n` objects; one event per action with the released set observed
+            pub fn record(n: usize, histories: usize, steps: usize, seed: u64, path: &str) -> Value {
+                use rand::rngs::StdRng;
+                use rand::{Rng, SeedableRng};
+                use std::io::Write;
+                let mut f = std::io::BufWriter::new(std::fs::File::create(path).expect("create trace"));
+                let mut rng = StdRng::seed_from_u64(seed ^ 0xc19);
+                let mut events = 0usize;
+                let mut by: std::collections::HashMap<String, usize> = Default::default();
+                for _ in 0..histories {
+                    let empty = json!({"out": vec![Vec::<i64>::new(); n], "inn": vec![Vec::<i64>::new(); n], "h": vec![1; n], "inC": [], "res": []});
+                    let mut w = build(&empty).expect("build");
+                    writeln!(f, "{}", json!({"ev": "reset"})).unwrap();
+                    events += 1;
+                    let mut edges: Vec<(usize, usize)> = vec![];
+                    let mut inc: HashSet<usize> = HashSet::new();
+                    for _ in 0..steps {
+                        let rel: HashSet<usize> = released(n).into_iter().collect();
+                        let alive = |o: usize| !rel.contains(&o);
+                        let clean = edges.iter().all(|&(u, v)| !(alive(u) ^ alive(v)) || (!alive(u) && !alive(v)) || (alive(u) && alive(v)));
+                        let clean = clean && edges.iter().all(|&(u, v)| (!alive(u) || alive(v)) && (!alive(v) || alive(u)));
+                        let hcount = |w: &W, o: usize| w.handles[o - 1].len();
+                        let u = rng.gen_range(1..=n);
+                        let v = rng.gen_range(1..=n);
+                        let a = match rng.gen_range(0..14) {
+                            0..=2 if clean && w.results.is_empty() && hcount(&w, u) > 0 && hcount(&w, v) > 0 => json!(["connect", u, v]),
+                            3 if hcount(&w, u) > 0 && hcount(&w, u) < 3 => json!(["clone", u]),
+                            4..=6 if hcount(&w, u) > 0 => json!(["drop", u]),
+                            7 if hcount(&w, u) > 0 && !inc.contains(&u) => json!(["insert", u]),
+                            8 if !inc.is_empty() && rng.gen_bool(0.3) => json!(["dropc"]),
+                            9 if clean && hcount(&w, u) > 0 && w.results.len() < 2 => json!(["edges", u]),
+                            10 if clean && hcount(&w, u) > 0 && w.results.len() < 2 => json!(["order", u]),
+                            11 if clean && hcount(&w, u) > 0 && w.results.len() < 2 && u != v => json!(["path", u, v]),
+                            12 if !w.results.is_empty() => json!(["dropres", rng.gen_range(1..=w.results.len())]),
+                            13 if clean && hcount(&w, u) > 0 => json!(["lookup", u, v]),
+                            _ => continue,
+                        };
+                        let r = guarded(|| apply(&mut w, &a).and_then(|_| use_results(&w)));
+                        match r {
+                            Guarded::Ok(Ok(_)) => {}
+                            Guarded::Ok(Err(e)) if a[0] == json!("path") && e.contains("target not found") => continue, // unreachable target: not an action of the model
+                            other => {
+                                writeln!(f, "{}", json!({"ev": "own", "a": a, "rt": "fail", "released": [], "detail": format!("{:?}", other.failure())})).unwrap();
+                                events += 1;
+                                break;
+                            }
+                        }
+                        match a[0].as_str().unwrap() {
+                            "connect" => edges.push((u, v)),
+                            "insert" => { inc.insert(u); }
+                            "dropc" => inc.clear(),
+                            _ => {}
+                        }
+                        *by.entry(a[0].as_str().unwrap().to_string()).or_insert(0) += 1;
+                        writeln!(f, "{}", json!({"ev": "own", "a": a, "rt": "ok", "released": released(n), "double": over_released(n)})).unwrap();
+                        events += 1;
+                    }
+                    drop(w);
+                    writeln!(f, "{}", json!({"ev": "dropall", "released": released(n), "double": over_released(n)})).unwrap();
+                    events += 1;
+                }
+                f.flush().unwrap();
+                json!({"events": events, "histories": histories, "by_action": by})
+            }
         }
     };
 }
@@ -262,10 +330,22 @@ own_impl!(replay_sync_ungraph, gdsl::sync_ungraph, false);
 
 pub fn replay(flavour: &str, cases: &str, max_viol: usize) -> Value {
     let mut v = match flavour {
-        "digraph" => replay_digraph(cases, max_viol),
-        "sync_digraph" => replay_sync_digraph(cases, max_viol),
-        "ungraph" => replay_ungraph(cases, max_viol),
-        "sync_ungraph" => replay_sync_ungraph(cases, max_viol),
+        "digraph" => replay_digraph::replay(cases, max_viol),
+        "sync_digraph" => replay_sync_digraph::replay(cases, max_viol),
+        "ungraph" => replay_ungraph::replay(cases, max_viol),
+        "sync_ungraph" => replay_sync_ungraph::replay(cases, max_viol),
+        o => panic!("unknown flavour {}", o),
+    };
+    v["flavour"] = json!(flavour);
+    v
+}
+
+pub fn record(flavour: &str, n: usize, histories: usize, steps: usize, seed: u64, path: &str) -> Value {
+    let mut v = match flavour {
+        "digraph" => replay_digraph::record(n, histories, steps, seed, path),
+        "sync_digraph" => replay_sync_digraph::record(n, histories, steps, seed, path),
+        "ungraph" => replay_ungraph::record(n, histories, steps, seed, path),
+        "sync_ungraph" => replay_sync_ungraph::record(n, histories, steps, seed, path),
         o => panic!("unknown flavour {}", o),
     };
     v["flavour"] = json!(flavour);
